@@ -22,9 +22,12 @@ META = {
             "interval of the f32, an integral real may return as an integer); (b) decodes content spelled by the Producer and inline "
             "images, re-encodes and decodes again: the second decoding must equal the first.",
     "note": "Trusted: TLC, the transcription of ISO 32000-1 7.2-7.3, 7.8.2, 8.9.7 in Syntax.tla/Content.tla (checked against the "
-            "Producer by TLC), the harness projection (wire.rs) incl. its exact-decimal f32 intervals. Domain: operators over letters, "
-            "'*', ''', '\"' that do not begin with true/false/null and are not BI/ID/EI; operands are direct objects without references "
-            "(also nested), finite reals; inline images unfiltered with colour space DeviceGray/RGB/CMYK or G/RGB/CMYK, BPC 1,2,4,8, with or without the "
+            "Producer by TLC), the harness projection (wire.rs) incl. its exact-decimal f32 intervals. Domain (Content!Domain): every non-empty operator string over letters, "
+            "'*', ''', '\"'; operands are direct objects without references (also nested). Core: encode must succeed and decode(encode(x)) = x. "
+            "Refusable (encode may return an error, but must not write bytes that decode differently): the words null/true/false, BI "
+            "without its image, ID, EI as operators; reals that are not finite; nesting above 32 levels. Nesting at both limits (arrays or "
+            "dictionaries around a literal string with nested parentheses) is decoded on a 2 MiB thread of a supervised worker, in the "
+            "optimised and in the unoptimised (dev, opt-level 0) build. Inline images unfiltered with colour space DeviceGray/RGB/CMYK or G/RGB/CMYK, BPC 1,2,4,8, with or without the "
             "optional entries ImageMask false, Interpolate, Decode (abbreviated or full keys, any order). Stencil masks (ImageMask true) "
             "have no colour space: they are read by the spec (one bit per sample) and tried, but what lopdf does with them is a note. "
             "Deviations of lopdf's *decoder* on content it did not write (FF/NUL as white-space, raw CR in literal strings, operators "
@@ -54,9 +57,9 @@ def walk(o):
 
 
 def operator_in_domain(opb):
+    """the operator alphabet the statement names (Content!IsOperatorString)"""
     s = bytes(opb)
-    return (len(s) > 0 and all(b in OP_ALPHABET for b in s) and not s.startswith((b"true", b"false", b"null", b"BI"))
-            and s not in (b"ID", b"EI"))
+    return len(s) > 0 and all(b in OP_ALPHABET for b in s)
 
 
 def is_inline_op(op):
@@ -104,6 +107,40 @@ def ops_in_domain(ops):
     return True
 
 
+KEYWORDS3 = (b"null", b"true", b"false")
+
+
+def edge_signature(enc_rec, enc_v, dec, dec_v):
+    """Signature of a failed decode(encode(x)) = x at an edge of the domain (Content!Domain names the edge), computed from
+    the failing case; None when no edge class explains it (the generic round-trip signature is used then)."""
+    ops = enc_rec["ops"]
+    why = set(enc_v.get("dom", {}).get("why", []))
+    rd = dec_v["rd"]
+    crashed = dec is not None and str(dec["res"]).startswith(("crash", "hang"))
+    if crashed:
+        # the process died inside Content::decode: which build and stack are part of the signature
+        parts = enc_rec["cls"].split(".")
+        return "C14:nesting.stack-overflow.%s-2MiB" % (parts[1] if parts[0] == "deep" and len(parts) > 1 else "unknown")
+    if "nonfinite-real" in why:
+        return "C14:real.nonfinite.written"
+    if "nesting-above-core" in why and rd["v"] in ("rt-decode-failed", "op-count"):
+        return "C14:nesting.encode-beyond-decode-limit"
+    names = [bytes(o["op"]) for o in ops]
+    if "unwritable-operator" in why:
+        bad = sorted({n.decode() for o, n in zip(ops, names)
+                      if n in KEYWORDS3 + (b"ID", b"EI") or (n == b"BI" and not is_inline_op(o))})
+        return "C14:operator.unwritable-written[" + "+".join(bad) + "]"
+    # core domain: operators that begin like a keyword of the operand grammar
+    i = rd.get("i")
+    at = [names[i - 1]] if i and 1 <= i <= len(names) and rd["v"] in ("operator", "operand-count", "operand") else names
+    if any(n.startswith(k) and len(n) > len(k) for n in at for k in KEYWORDS3):
+        if rd["v"] != "operator" or any(bytes(rd["want"]).startswith(k) and bytes(rd["got"]) == bytes(rd["want"])[len(k):] for k in KEYWORDS3):
+            return "C14:operator.keyword-prefix"
+    if any(n.startswith(b"BI") and len(n) > 2 for n in names) and rd["v"] == "rt-decode-failed":
+        return "C14:operator.BI-prefix"
+    return None
+
+
 def rt_signature(enc_rec, enc_v, dec_v):
     """narrow signature of decode(encode(ops)) != ops for in-domain ops"""
     ops = enc_rec["ops"]
@@ -123,6 +160,24 @@ def mc(cfg, tier):
 def simulate(module, cfg, num, name, env=None):
     r = tlc(module, cfg, workers=1, simulate=num, depth=4000, env=env, timeout=1800, xmx="3g", name=name)
     return r, r.tagged("REPLAY")
+
+
+def build_debug_worker():
+    """The same harness binary in the unoptimised dev profile (what `cargo build` / `cargo test` give the library's users):
+    frames are an order of magnitude larger there, so nesting limits dimensioned for it are only testable there.
+    Cargo.toml sets opt-level 1 for dev; the environment override makes it 0.  Same crate dir (shadow dir under
+    VERIF_REPO) and target dir as the release build, profile `debug`."""
+    import subprocess, time
+    cdir = vlib._crate_dir("harness")
+    t0 = time.time()
+    env = dict(os.environ, CARGO_NET_OFFLINE="true", CARGO_PROFILE_DEV_OPT_LEVEL="0")
+    p = subprocess.run(["cargo", "build", "--offline", "--bin", "c14"], cwd=cdir, env=env, stdout=subprocess.PIPE,
+                       stderr=subprocess.STDOUT, text=True)
+    if p.returncode != 0:
+        log(p.stdout[-4000:])
+        raise vlib.ToolError("cargo build (dev profile) failed for the c14 worker")
+    log("[build] harness c14 dev profile, opt-level 0: %.1fs (repo=%s)" % (time.time() - t0, vlib.REPO))
+    return os.path.join(cdir, "target", "debug", "c14")
 
 
 def judge(recs, name, chunks, boundaries):
@@ -156,6 +211,9 @@ class Eval:
         self.masks_tried = 0
         self.first_keys = set()
         self.inline_key_classes = collections.Counter()
+        self.domain_classes = collections.Counter()
+        self.edge_classes = collections.Counter()
+        self.refused = collections.Counter()
         self.history = collections.Counter()
 
     def note(self, key, sample):
@@ -172,7 +230,12 @@ class Eval:
         if any(is_mask_op(o) for o in ops):
             # stencil masks have no colour space: outside "every supported colour space", observations only
             probe, cls = True, "inline.mask"
-        indom = ops_in_domain(ops)
+        dom = enc_v.get("dom", {"cls": "na", "why": []})
+        if dom["cls"] == "na":
+            raise vlib.ToolError("Encode verdict without the domain class of the spec")
+        indom = dom["cls"] in ("core", "refusable")          # Content!Domain: where encode and decode must agree
+        self.domain_classes[dom["cls"] + (":" + "+".join(sorted(dom["why"])) if dom["why"] else "")] += 1
+        self.edge_classes[".".join(cls.split(".")[:3]) if cls.startswith(("opname.", "deep.")) else ".".join(cls.split(".")[:2])] += 1
         key = json.dumps(enc["bytes"]) if enc["res"] == "ok" else json.dumps(ops)
         chk.case(key if ops else None)
         for op in ops:
@@ -183,13 +246,23 @@ class Eval:
                   "bytes_ascii": bytes(enc.get("bytes", [])).decode("latin-1")[:400],
                   "decode_result": dec["res"] if dec else None, "decoded": dec["ops"] if dec else None,
                   "strict_reading_of_bytes": enc_v["d"], "roundtrip": dec_v["rd"] if dec_v else None}
+        detail["domain"] = dom
         if enc["res"] != "ok":
-            if inline or indom:
+            if enc_v["v"] == "ok-refused":
+                # outside the core domain encode may refuse: that is agreement (Content!Domain)
+                self.refused["+".join(sorted(dom["why"]))] += 1
+                chk.traces += 1
+            elif dom["cls"] == "core" and not probe:
                 chk.violation("C14:encode-failed", detail)
             else:
                 self.note("probe:" + cls + ":encode-failed", detail)
             return
         ok = dec_v["rt"].startswith("ok")
+        if not ok and indom and not probe:
+            sig = edge_signature(enc, enc_v, dec, dec_v)
+            if sig:
+                chk.violation(sig, detail)
+                return
         if inline:
             # clause 2: decode -> encode -> decode.  (A content stream with an inline image is valid input;
             # whether its other operators are in the alphabet does not matter for this signature.)
@@ -251,6 +324,10 @@ class Eval:
             return
         if cls in ("inline", "inline.mask"):
             self.inline_decode(given, dec, dec_v, detail, producer=False)
+        elif cls.startswith("literal") and not ok:
+            # number literals at / beyond the f32 range in content lopdf did not write: what the decoder makes of them is
+            # an observation; what encode does with the decoded operations is judged by roundtrip()
+            self.note("number-literal:decode:" + ".".join(cls.split(".")[1:]) + ":" + dec_v["v"], detail)
 
     def inline_decode(self, given, dec, dec_v, detail, producer):
         chk = self.chk
@@ -374,7 +451,7 @@ def evaluate_history(ev, recs, verdicts):
             f_ok, f_enc, f_dec = fresh_ok.get(r["case"], (False, None, None))
             chk.case(json.dumps([reset["hist"], r.get("bytes")]))
             ev.history[("judged", "d=%d" % reset["d"], label.split(":")[0] if same else ("other-thread" if other else "none"))] += 1
-            if not ops_in_domain(r["ops"]) and not any(is_inline_op(o) for o in r["ops"]):
+            if v.get("dom", {}).get("cls") != "core":
                 continue
             detail = {"class": "history", "schedule": reset["hist"], "judging_thread": jt, "disturbances": dist,
                       "ops": r["ops"], "bytes_ascii": bytes(r.get("bytes", [])).decode("latin-1")[:300],
@@ -557,11 +634,19 @@ def run(tier):
         sin, th = os.path.join(w, "schedules.ndjson"), os.path.join(w, "history.ndjson")
         write_ndjson(sin, sch)
         run_bin("c14", ["history", "--seed", sd, "--in", sin, "--out", th, "--reps", 64])
-        return read_ndjson(tr), read_ndjson(ti), read_ndjson(th)
+        # nesting at both limits on a 2 MiB thread of a supervised worker: optimised and unoptimised build
+        dbg = build_debug_worker()
+        rel = os.path.join(vlib.build_harness("c14"), "c14")
+        deep = []
+        for label, exe in (("release", rel), ("debug", dbg)):
+            td = os.path.join(w, "deep-%s.ndjson" % label)
+            run_bin("c14", ["deep", "--exe", exe, "--label", label, "--stack", 2 << 20, "--out", td])
+            deep += read_ndjson(td)
+        return read_ndjson(tr), read_ndjson(ti), read_ndjson(th), deep
 
     with ThreadPoolExecutor(max_workers=3) as ex:
         f_gen, f_cov, f_rec = ex.submit(gen), ex.submit(cov), ex.submit(rec)
-        gens, _, (recs_v, recs_i, recs_h) = f_gen.result(), f_cov.result(), f_rec.result()
+        gens, _, (recs_v, recs_i, recs_h, recs_d) = f_gen.result(), f_cov.result(), f_rec.result()
 
     produced = []
     for r, cases in gens:
@@ -577,9 +662,10 @@ def run(tier):
     # ---- TLC judges every recorded call
     ev = Eval(chk)
     chunks = 1 if quick else 12
-    jobs = [("c14-v", recs_v, "lopdf"), ("c14-i", recs_i, "harness-inline"), ("c14-p", recs_p, "tla-producer")]
+    jobs = [("c14-v", recs_v, "lopdf"), ("c14-i", recs_i, "harness-inline"), ("c14-p", recs_p, "tla-producer"),
+            ("c14-d", recs_d, "deep-worker")]
     resets = [i for i, r in enumerate(recs_h) if r["ev"] == "Reset"]
-    with ThreadPoolExecutor(max_workers=4) as ex:
+    with ThreadPoolExecutor(max_workers=5) as ex:
         f_h = ex.submit(judge, recs_h, "c14-h", chunks, resets)
         judged = list(ex.map(lambda j: judge(j[1], j[0], chunks, case_starts(j[1])), jobs))
         vs_h, st_h, tr_h = f_h.result()
@@ -624,6 +710,25 @@ def run(tier):
         vac.append("fewer than 50 judged calls with container operands after a disturbance on their own thread")
     if not any(k[0] == "judged" and k[2] == "other-thread" for k in ev.history):
         vac.append("no judged call after a disturbance on the other thread only")
+    for kw in ("null", "true", "false", "BI", "ID", "EI", "R", "obj"):
+        for pos in ("alone", "prefix", "suffix", "infix"):
+            if ev.edge_classes["opname.%s.%s" % (kw, pos)] < 3:
+                vac.append("operator names against the keyword %s (%s): %d cases" % (kw, pos, ev.edge_classes["opname.%s.%s" % (kw, pos)]))
+    for c, n in (("number.finite", 10), ("number.nonfinite", 8), ("literal.beyond", 3), ("literal-inline.beyond", 3), ("literal.finite", 2),
+                 ("deep.debug.arr", 8), ("deep.debug.dict", 8), ("deep.release.arr", 8), ("deep.release.dict", 8)):
+        if ev.edge_classes[c] < n:
+            vac.append("only %d cases of class %s" % (ev.edge_classes[c], c))
+    for d in (32, 47, 48, 49, 50, 64):
+        for k in ("arr", "dict", "mix"):
+            if not any(r["ev"] == "Encode" and r["cls"] == "nest.%s.%d" % (k, d) for r in recs_v):
+                vac.append("nesting case %s depth %d missing" % (k, d))
+    for lbl in ("debug", "release"):
+        if not any(r["ev"] == "Encode" and r["cls"] == "deep.%s.arr.48x100" % lbl for r in recs_d):
+            vac.append("no %s-profile decode of 48 arrays around 100 parentheses" % lbl)
+    chk.extra["domain_classes"] = dict(ev.domain_classes)
+    chk.extra["encode_refusals"] = dict(ev.refused)
+    chk.extra["edge_classes"] = {k: n for k, n in sorted(ev.edge_classes.items())
+                                 if k.split(".")[0] in ("opname", "number", "nest", "literal", "literal-inline", "deep")}
     chk.extra["inline_optional_entries_tried"] = dict(ev.opt_keys_tried)
     chk.extra["inline_entry_key_sets"] = len(ev.first_keys)
     chk.extra["stencil_masks_tried"] = ev.masks_tried
